@@ -12,21 +12,6 @@ import (
 // Check can be used to validate the relationships between the types.
 type Schema struct {
 	Types []Type
-
-	// Rels stores the relationships found in the schema's types. For
-	// two-way relationships, only one is chosen to be part of this
-	// map. The chosen one is the one that comes first when sorting
-	// both relationships in alphabetical order using the type name
-	// first and then the relationship name.
-	//
-	// For example, a type called Directory has a Parent relationship
-	// and a Children relationship. Both relationships have the same
-	// type (Directory), so now the name is used for sorting. Children
-	// comes before Parent, so the relationship Children from type
-	// Directory is stored here. The other one is not stored to avoid
-	// duplication (the information is already accessible through the
-	// inverse relationship).
-	rels map[string]Rel
 }
 
 // AddType adds a type to the schema.
@@ -161,12 +146,21 @@ func (s *Schema) AddTwoWayRel(rel Rel) error {
 
 // Rels returns all the relationships from the schema's types. For two-way
 // relationships (two types where each has a relationship pointing to the other
-// type), only one of the two relationships will appear in the list.
+// type), only one of the two relationships will appear in the list. The chosen
+// one is the one that comes first when sorting both relationships in
+// alphabetical order using the type name first and then the relationship name.
+//
+// For example, a type called Directory has a Parent relationship and a Children
+// relationship. Both relationships have the same type (Directory), so now the
+// name is used for sorting. Children comes before Parent, so the relationship
+// Children from type Directory is returned. The other one is not returned to
+// avoid duplication (the information is already accessible through the inverse
+// relationship).
 func (s *Schema) Rels() []Rel {
-	s.buildRels()
+	relSet := s.buildRels()
 
-	rels := make([]Rel, 0, len(s.rels))
-	for _, rel := range s.rels {
+	rels := make([]Rel, 0, len(relSet))
+	for _, rel := range relSet {
 		rels = append(rels, rel)
 	}
 
@@ -271,8 +265,11 @@ func (s *Schema) Check() []error {
 
 // buildRels builds the set of normalized relationships that is returned by
 // Schema.Rels.
-func (s *Schema) buildRels() {
-	s.rels = map[string]Rel{}
+//
+// The set is not kept in the schema: Rels only reads the schema and can
+// therefore be called while other goroutines use it.
+func (s *Schema) buildRels() map[string]Rel {
+	rels := map[string]Rel{}
 
 	for _, typ := range s.Types {
 		for _, rel := range typ.Rels {
@@ -283,7 +280,9 @@ func (s *Schema) buildRels() {
 				"%q %q %q %q",
 				norm.FromType, norm.FromName, norm.ToType, norm.ToName,
 			)
-			s.rels[relName] = norm
+			rels[relName] = norm
 		}
 	}
+
+	return rels
 }
